@@ -703,6 +703,17 @@ static void run_probe(bool crash) {
                    mxh::ver_name(ver), a.client_complete, b.client_complete, d.client_complete, d.alert_at_server);
         }
     }
+    for (int iss = 0; iss < 2; iss++) { // cost breakdown
+        LeafSpec sp; sp.issuer = iss; sp.has_cn = true; sp.cn = "a.b"; sp.san = { { c05::SK_DNS, "a.b" }, { c05::SK_DNS, "*.a.b" }, { c05::SK_IP, S("\x0a\x00\x00\x01", 4) } };
+        Bytes der; double t0 = now_s(); const int N = 200;
+        for (int i = 0; i < N; i++) c05::mint_leaf(sp, der);
+        double t1 = now_s();
+        for (int i = 0; i < N; i++) { psX509Cert_t *l = nullptr; psX509ParseCert(NULL, der.data(), (uint32) der.size(), &l, CERT_STORE_UNPARSED_BUFFER); psX509FreeCert(l); }
+        double t2 = now_s();
+        for (int i = 0; i < N; i++) evaluate(der, sp, "a.b", NT_ANY, 0, 0);
+        double t3 = now_s();
+        printf("cost (%s issuer): mint %.2f ms, parse %.2f ms, parse+validate %.2f ms per certificate\n", iss ? "RSA" : "EC", (t1 - t0) * 1000 / N, (t2 - t1) * 1000 / N, (t3 - t2) * 1000 / N);
+    }
     if (crash) { san({ { c05::SK_DNS, S("x\0", 2) }, { c05::SK_DNS, "a.b" } });       probe_line("f6 dNSName after NUL-terminated", 1, "a.b", NT_SAN_DNS, 0, c); }
 }
 
@@ -719,6 +730,7 @@ void vf_global_init(int argc, char **argv) {
     }
     if (g_hs_den == 0) g_hs_den = 1;
     mxh::global_open();
+    vf::leak_check_interval() = 100; // the harness default (LeakSanitizer scan after every case) costs ~50 ms per case here; every 100th case keeps leaks attributable at ~1% of that
     std::string d = mxh::verif_dir() + "/pki/", err;
     if (!c05::mint_init(c05::ISS_EC, d + "ca_ec.pem", d + "ca_ec.key", d + "srv_ec.key", &err) ||
         !c05::mint_init(c05::ISS_RSA, d + "ca_rsa.pem", d + "ca_rsa.key", d + "srv_rsa.key", &err)) { fprintf(stderr, "[c05] mint_init: %s\n", err.c_str()); abort(); }
